@@ -772,4 +772,8 @@ def run(ctx):
     ctx.guard(progress.run_files, ctx, prog, 'C13.R20', ['terminal/impl/terminal.cpp', 'terminal/impl/terminal_key_events.cpp', 'terminal/impl/terminal_commands.cpp', 'terminal/impl/key_event_scanner.cpp', 'terminal/impl/terminal_nodes.cpp', 'terminal/impl/service/telnetd.cpp', 'terminal/impl/service/tcp_rpc.cpp', 'util/split_cmdline.cpp', 'util/string.cpp'], 'terminal input path', floor=1)
     from rules import C13_history
     ctx.guard(C13_history.r21, ctx, prog)
+    from rules import C13_session
+    ctx.guard(C13_session.r23, ctx, prog)
+    from tbxlint import divzero
+    ctx.guard(divzero.rule, ctx, prog, 'C13.R22', 'A9 no division or remainder by a value that may be zero in the terminal: every integer /, % whose divisor is not a non-zero constant is preceded on every path by a test that the divisor is not zero (or the divisor is positive by construction): a zero that the peer can cause (a window width, a count, a length) is a SIGFPE that ends the process', ['/terminal/'], 60)
     return prog
